@@ -168,6 +168,9 @@ def _and(conds):
     return conds[0] if len(conds) == 1 else ast.BoolOp(op=ast.And(), values=list(conds))
 
 
+_LISTCOMP_TO_LOOP = False      # tried: three rule families (C02.winners, C13.table, C18.icm) read the closed comprehension form
+
+
 class _CanonLoops(ast.NodeTransformer):
     """the functional spellings of four loop idioms are read as the loops the code base writes them as:
        if not any(C for T in IT): S          ->  for T in IT: (if C: break)  else: S
@@ -210,6 +213,16 @@ class _CanonLoops(ast.NodeTransformer):
                 loop = ast.For(target=t, iter=it, body=body, orelse=[], type_comment=None)
                 return [ast.copy_location(ast.Assign(targets=[ast.Name(id=name, ctx=ast.Store())], value=ast.Constant(0)), st),
                         ast.copy_location(loop, st)]
+        # L = [E for T in IT if C]   ->   L = []; for T in IT: if C: L.append(E)
+        if isinstance(st, ast.Assign) and len(st.targets) == 1 and isinstance(st.targets[0], ast.Name) and isinstance(st.value, ast.ListComp) \
+                and _gen1(st.value) and _LISTCOMP_TO_LOOP:
+            t, it, conds, elt = _gen1(st.value)
+            name = st.targets[0].id
+            if not any(isinstance(n, ast.Name) and n.id == name for n in ast.walk(st.value)):
+                app = ast.Expr(value=ast.Call(func=ast.Attribute(value=ast.Name(id=name, ctx=ast.Load()), attr='append', ctx=ast.Load()), args=[elt], keywords=[]))
+                body = [ast.If(test=_and(conds), body=[app], orelse=[])] if conds else [app]
+                return [ast.copy_location(ast.Assign(targets=[ast.Name(id=name, ctx=ast.Store())], value=ast.List(elts=[], ctx=ast.Load())), st),
+                        ast.copy_location(ast.For(target=t, iter=it, body=body, orelse=[], type_comment=None), st)]
         if isinstance(st, ast.Expr) and isinstance(st.value, ast.Call) and isinstance(st.value.func, ast.Attribute) and st.value.func.attr == 'extend' \
                 and len(st.value.args) == 1 and isinstance(st.value.args[0], ast.GeneratorExp) and _gen1(st.value.args[0]):
             t, it, conds, elt = _gen1(st.value.args[0])
